@@ -109,6 +109,9 @@ func c20Run(input string) string {
 	if len(parts) != 3 {
 		return "bad-input"
 	}
+	if parts[0] == "sd" {
+		return c20RunSD(parts[1], parts[2]) // SD-JWT credentials under limit_disclosure (c20sd.go)
+	}
 	// definition
 	var descs []interface{}
 	descAttr := map[string]string{}
@@ -524,6 +527,7 @@ func c20Gen(r *Rng, tier string) []string {
 		}
 		out = append(out, "D:"+strings.Join(ds, ";")+"|R:"+req+"|C:"+strings.Join(cs, ";"))
 	}
+	out = append(out, c20SDGen(r, n/20)...)
 	return out
 }
 
